@@ -74,6 +74,8 @@ class FakeProcLocalBackend(LocalBackend):
         self.local_path = Path(self._tmp)
         self.w = {}
         self.next_run = []      # report lists for the next _schedule calls
+        self.next_eager = []    # per queued run: reports written at once when the job is launched
+        self.last_eager = 0
         self.next_late = 0      # reports the worker still writes after the next pause/stop decision
         self.world_fn = None    # called before every poll reads: returns [(kind, trial_id, k), ...]
         self.late_emitted = {}  # trial_id -> payloads written in a decision window
@@ -214,8 +216,9 @@ class FakeProcLocalBackend(LocalBackend):
         return lines
 
     # ---- the process layer of LocalBackend -------------------------------------
-    def queue_run(self, trial_id, reports):
+    def queue_run(self, trial_id, reports, eager=0):
         self.next_run.append(list(reports))
+        self.next_eager.append(eager)
 
     def _schedule(self, trial_id, config):
         os.makedirs(self.trial_path(trial_id), exist_ok=True)
@@ -230,6 +233,11 @@ class FakeProcLocalBackend(LocalBackend):
             w.partial = False
         self.trial_subprocess[trial_id] = FakeProc(self, trial_id)
         self._busy_trial_id_candidates.add(trial_id)
+        # a fast job writes its first report(s) right at launch, before control returns from _schedule
+        eager = self.next_eager.pop(0) if self.next_eager else 0
+        self.last_eager = min(eager, len(w.todo))
+        if self.last_eager:
+            self.emit(trial_id, self.last_eager)
 
     # ---- recording wrappers (call the real implementation) -------------------
     def fetch_status_results(self, trial_ids, mid=None):
@@ -274,12 +282,16 @@ class FakeProcLocalBackend(LocalBackend):
         reports = list(self.next_run[0])
         t = super().start_trial(config, checkpoint_trial_id)
         self.calls.append(("start", t.trial_id, reports))
+        if self.last_eager:
+            self.calls.append(("emit", t.trial_id, self.last_eager))
         return t
 
     def resume_trial(self, trial_id, new_config=None):
         reports = list(self.next_run[0]) if self.next_run else []
         t = super().resume_trial(trial_id, new_config)
         self.calls.append(("resume", trial_id, reports))
+        if self.last_eager:
+            self.calls.append(("emit", trial_id, self.last_eager))
         return t
 
 
@@ -301,7 +313,7 @@ class ScriptedSimBackend(SimulatorBackend):
         self.started = []    # trial ids of jobs whose start event was processed, in order
         self.npolls = 0
 
-    def queue_run(self, trial_id, reports):
+    def queue_run(self, trial_id, reports, eager=0):
         self.next_run[trial_id] = list(reports)
 
     def _run_job_and_collect_results(self, trial_id, config=None):
@@ -369,10 +381,10 @@ class ScriptedScheduler(TrialScheduler):
         if s is None:
             return None
         if s[0] == "start":
-            self.backend.queue_run(trial_id, s[1])
+            self.backend.queue_run(trial_id, s[1], *(s[2:3]))
             self.backend.calls.append(("suggest", "start", trial_id, [r["v"] for r in s[1]]))
             return TrialSuggestion.start_suggestion({"n": trial_id})
-        self.backend.queue_run(s[1], s[2])
+        self.backend.queue_run(s[1], s[2], *(s[3:4]))
         self.backend.calls.append(("suggest", "resume", s[1], [r["v"] for r in s[2]]))
         return TrialSuggestion.resume_suggestion(s[1])
 
